@@ -2534,7 +2534,12 @@ namespace bloch::compiler {
                                  "ambiguous base constructor call in 'super(...)'");
             }
         } else if (node.callee) {
+            // '(x)(q)', 'h(q)(q)': only a name, a member or 'super' can be called; anything else
+            // was accepted and the call (a gate, too) silently dropped at run time.
             node.callee->accept(*this);
+            throw BlochError(ErrorCategory::Semantic, node.line, node.column,
+                             "this expression cannot be called: a call needs a function, method "
+                             "or gate name");
         }
         for (auto& arg : node.arguments) arg->accept(*this);
     }
